@@ -619,9 +619,13 @@ class GPT:
         for part in self.parts:
             tmplist.append(part.record())
         part_data = b''.join(tmplist)
+        # The "empty" partitions are part of the partition entry array, and
+        # the CRC in the header covers the whole array (UEFI 5.3.2).
+        empty_parts = b'\x00' * (self.header.num_parts - len(self.parts)) * 128
+        part_crc = crc32(part_data + empty_parts)
 
         if self.is_primary:
-            outlist = [self.header.record(crc32(part_data))]
+            outlist = [self.header.record(part_crc)]
             if self.apm_parts:
                 outlist.append(b'\x00' * 1024)
             for apm_part in self.apm_parts:
@@ -630,12 +634,12 @@ class GPT:
                 outlist.extend([raw, pad])
             outlist.append(part_data)
             # Write out all of the "empty" partitions.
-            outlist.append(b'\x00' * (self.header.num_parts - len(self.parts)) * 128)
+            outlist.append(empty_parts)
         else:
             outlist = [part_data]
             # Write out all of the "empty" partitions.
-            outlist.append(b'\x00' * (self.header.num_parts - len(self.parts)) * 128)
-            outlist.append(self.header.record(crc32(part_data)))
+            outlist.append(empty_parts)
+            outlist.append(self.header.record(part_crc))
 
         return b''.join(outlist)
 
